@@ -1,10 +1,10 @@
 CONSTANTS
     PartsId = 1
-    MaxCalls = 4
+    MaxCalls = 6
     SrcLens = {0, 1, 9, 10, 11, 13}
-    Mutant = 2
-    Side = "w"
-    Emit = FALSE
+    Mutant = 0
+    Side = "r"
+    Emit = TRUE
 SPECIFICATION Spec
 INVARIANT TypeOK
 INVARIANT SinkIsPrefix
@@ -12,4 +12,5 @@ INVARIANT OkMeansWhole
 INVARIANT FaultSurfaces
 INVARIANT ReaderSound
 INVARIANT ReaderShort
+INVARIANT Emitted
 CHECK_DEADLOCK FALSE
